@@ -29,3 +29,18 @@ func (d *DeterministicSharder) VerifPeers() []string {
 	}
 	return out
 }
+
+// VerifRLock / VerifRUnlock take and release peerLock's read lock, exactly as an in-flight
+// WhichShard does.
+func (d *DeterministicSharder) VerifRLock()   { d.peerLock.RLock() }
+func (d *DeterministicSharder) VerifRUnlock() { d.peerLock.RUnlock() }
+
+// VerifWriterPending reports whether a writer holds or waits for peerLock (a new reader would
+// block).  Safe to call while holding the read lock.
+func (d *DeterministicSharder) VerifWriterPending() bool {
+	if d.peerLock.TryRLock() {
+		d.peerLock.RUnlock()
+		return false
+	}
+	return true
+}
